@@ -19,18 +19,25 @@ Probe == Lit(Ramp(20, 200))
 Probe15 == Ramp(15, 60)
 ProbeCt(key) == LET iv == FillT("ramp", 16, 3) IN Cat(<< iv, Cbc(key, iv, Cat(<< Lit(Probe15), Lit(<< 0 >>) >>)) >>)
 
-\* what an SA key object derived for suite su must hold and do (the key terms refer to the vector's defs)
-IkeKeyExpect(su) ==
-  LET k == IkeKeyRec(su) IN
+\* what an SA key object derived for suite su must hold and do (the key terms refer to the vector's defs, prefix px)
+IkeKeyExpectP(px, su) ==
+  LET k == IkeKeyRecP(px, su) IN
   [panic |-> FALSE, err |-> FALSE] @@ k @@
   [p_prf_d |-> Hmac(su.prf, k.sk_d, Probe), p_integ_i |-> Hmac(su.integ, k.sk_ai, Probe), p_integ_r |-> Hmac(su.integ, k.sk_ar, Probe),
    p_prf_i |-> Hmac(su.prf, k.sk_pi, Probe), p_prf_r |-> Hmac(su.prf, k.sk_pr, Probe), p_ct_i |-> Lit(Probe15), p_ct_r |-> Lit(Probe15)]
-ProbeArgs(su) == LET k == IkeKeyRec(su) IN [probe |-> Probe, ct_i |-> ProbeCt(k.sk_ei), ct_r |-> ProbeCt(k.sk_er)]
+ProbeArgsP(px, su) == LET k == IkeKeyRecP(px, su) IN [probe |-> Probe, ct_i |-> ProbeCt(k.sk_ei), ct_r |-> ProbeCt(k.sk_er)]
+IkeKeyExpect(su) == IkeKeyExpectP("", su)
+ProbeArgs(su) == ProbeArgsP("", su)
 
 IkeDeriveStep(prop, name, su, g, via, nonce, secret, spii, spir) ==
   Step("ike_derive", prop, FALSE,
        [name |-> name, suite |-> su, grp |-> g, via |-> via, nonce |-> nonce, secret |-> secret, spii |-> spii, spir |-> spir] @@ ProbeArgs(su),
        IkeKeyExpect(su))
+\* a derivation on the key object registered as `rekey` (it already went through a derivation): same expectations as fresh
+IkeRederiveStep(prop, px, name, rekey, su, g, nonce, secret, spii, spir) ==
+  Step("ike_derive", prop, FALSE,
+       [name |-> name, rekey |-> rekey, suite |-> su, grp |-> g, via |-> "str", nonce |-> nonce, secret |-> secret, spii |-> spii, spir |-> spir] @@ ProbeArgsP(px, su),
+       IkeKeyExpectP(px, su))
 NewIkeSaStep(prop, name, su, g, peer, nonce, spii, spir, rnd) ==
   Step("new_ike_sa", prop, FALSE,
        [name |-> name, suite |-> su, prop |-> IkeProp(su, g), wire |-> TRUE, peer |-> peer, nonce |-> nonce, spii |-> spii, spir |-> spir, rand |-> rnd],
